@@ -83,9 +83,11 @@ type vrfRefMsg struct {
 
 type vrfRef struct {
 	boxes   map[string][]vrfRefMsg
-	issued  []string       // every id ever returned
+	issued  map[string][]string // every id returned per mailbox (since the last restart: the live ones)
 	touched map[string]int // step of the last mutation per mailbox
 	gone    []string       // box+"/"+id of every message that left
+	// ids handed out by the current process (the state of the id generator)
+	sinceRestart int
 }
 
 func vrfNames() []string { return []string{"alpha", "b@x.org"} }
@@ -126,7 +128,10 @@ func (r *vrfRef) shape(names []string) int {
 		}
 		h = vrfMixInt(h, 99)
 	}
-	return vrfMixInt(h, len(r.issued))
+	for _, nm := range names {
+		h = vrfMixInt(h, len(r.issued[nm]))
+	}
+	return vrfMixInt(h, r.sinceRestart)
 }
 
 func (r *vrfRef) drop(box string, i int) {
@@ -162,7 +167,7 @@ func (r *vrfRef) compare(st storage.Store, box string, now time.Time, steps map[
 		vrf.Assert("list-subject", m.Subject() == w.subj)
 		vrf.Assert("list-size", m.Size() == 2)
 		vrf.Assert("list-seen", m.Seen() == w.seen)
-		vrf.Assert("list-date", m.Date().Equal(vrfDate(now, w.old, steps[w.id])))
+		vrf.Assert("list-date", m.Date().Equal(vrfDate(now, w.old, steps[box+"/"+w.id])))
 		vrf.Assert("list-from", m.From() != nil && m.From().Address == "f"+w.subj+"@x" && m.From().Name == "")
 		vrf.Assert("list-to", len(m.To()) == 1 && m.To()[0] != nil && m.To()[0].Name == "T" && m.To()[0].Address == box)
 		rc, serr := m.Source()
@@ -196,7 +201,7 @@ func VerifC10History(k int, mcap int, pre int) {
 		return
 	}
 	now := time.Now()
-	ref := &vrfRef{boxes: map[string][]vrfRefMsg{}, touched: map[string]int{}}
+	ref := &vrfRef{boxes: map[string][]vrfRefMsg{}, touched: map[string]int{}, issued: map[string][]string{}}
 	steps := map[string]int{}
 	names := vrfNames()
 	if pre > 0 {
@@ -207,8 +212,9 @@ func VerifC10History(k int, mcap int, pre int) {
 			nid, aerr := st.AddMessage(&vrfIn{mailbox: nm, subject: "s" + sfx, from: &mail.Address{Address: "fs" + sfx + "@x"},
 				to: []*mail.Address{{Name: "T", Address: nm}}, date: vrfDate(now, false, 8+i), src: []byte{b0, '\n'}})
 			vrf.Assert("add-noerr", aerr == nil)
-			ref.issued = append(ref.issued, nid)
-			steps[nid] = 8 + i
+			ref.issued[nm] = append(ref.issued[nm], nid)
+			ref.sinceRestart++
+			steps[nm+"/"+nid] = 8 + i
 			ref.boxes[nm] = append(ref.boxes[nm], vrfRefMsg{id: nid, subj: "s" + sfx, b0: b0})
 		}
 	}
@@ -228,11 +234,12 @@ func VerifC10History(k int, mcap int, pre int) {
 			nid, aerr := st.AddMessage(&vrfIn{mailbox: box, subject: "s" + sfx, from: &mail.Address{Address: "fs" + sfx + "@x"},
 				to: []*mail.Address{{Name: "T", Address: box}}, date: vrfDate(now, old, step), src: []byte{b0, '\n'}})
 			vrf.Assert("add-noerr", aerr == nil)
-			for _, o := range ref.issued {
+			for _, o := range ref.issued[box] {
 				vrf.Assert("id-never-reused", o != nid)
 			}
-			ref.issued = append(ref.issued, nid)
-			steps[nid] = step
+			ref.issued[box] = append(ref.issued[box], nid)
+			ref.sinceRestart++
+			steps[box+"/"+nid] = step
 			if mcap > 0 {
 				for len(ref.boxes[box]) >= mcap {
 					ref.drop(box, 0)
@@ -321,7 +328,19 @@ func VerifC10History(k int, mcap int, pre int) {
 					}
 				}
 			}
-		case 7: // restart: a fresh Store object on the same path
+		case 7: // restart: what a new process has - the id counter starts again from 0 (package
+			// initialisation) and a fresh Store object is opened on the same path
+			countChannel = make(chan int, 10)
+			go countGenerator(countChannel)
+			// ids issued before the restart to messages that are gone are out of the new process's
+			// sight; the live ones must still never be handed out again
+			ref.sinceRestart = 0
+			for _, nm := range names {
+				ref.issued[nm] = nil
+				for _, m := range ref.boxes[nm] {
+					ref.issued[nm] = append(ref.issued[nm], m.id)
+				}
+			}
 			st2, nerr := New(cfg, host)
 			vrf.Assert("reopen-noerr", nerr == nil)
 			if nerr != nil {
